@@ -212,3 +212,173 @@ Proof.
 Qed.
 
 End DP.
+
+(* ------------------------------------------------------------ Python slices *)
+Lemma range_from_In start step k p :
+  In p (range_from start step k) <-> exists i, (0 <= i < Z.of_nat k)%Z /\ p = (start + i * step)%Z.
+Proof.
+  revert start. induction k as [|k IH]; intro start; cbn [range_from].
+  - split; [intros [] | intros [i [Hi _]]; lia].
+  - cbn [In]. rewrite IH. split.
+    + intros [<-|[i [Hi ->]]]; [exists 0%Z; split; lia | exists (i + 1)%Z; split; lia].
+    + intros [i [Hi ->]]. destruct (Z.eq_dec i 0) as [->|Hn]; [left; lia|].
+      right. exists (i - 1)%Z. split; lia.
+Qed.
+
+Lemma range_from_length start step k : length (range_from start step k) = k.
+Proof. revert start; induction k; intro; cbn; auto. Qed.
+
+(* every position a slice selects from a sequence of length n is a valid index *)
+Theorem slice_positions_in_range n s ps : (0 <= n)%Z ->
+  slice_positions n s = Ok ps -> Forall (fun p => 0 <= p < n)%Z ps.
+Proof.
+  intros Hn E. unfold slice_positions in E. apply rmap_Ok in E as [[[start stop] step] [E ->]].
+  unfold slice_indices in E.
+  set (st := match sl_step s with Some k => k | None => 1%Z end) in *.
+  destruct (st =? 0)%Z eqn:E0; [discriminate|]. apply Z.eqb_neq in E0.
+  inversion E as [[Es Ep Est]]; clear E. rewrite Est in *. clear Est.
+  apply Forall_forall. intros p Hp. apply range_from_In in Hp as [i [Hi ->]].
+  unfold range_len in Hi.
+  destruct (step <? 0)%Z eqn:Eneg; [apply Z.ltb_lt in Eneg | apply Z.ltb_ge in Eneg].
+  - (* negative step: lower = -1, upper = n - 1 *)
+    replace (0 <? step)%Z with false in Hi by (symmetry; apply Z.ltb_ge; lia).
+    assert (Hstart : (-1 <= start <= n - 1)%Z).
+    { subst start. destruct (sl_start s) as [i0|]; [|lia].
+      unfold clip_idx. destruct (i0 <? 0)%Z eqn:E1; [apply Z.ltb_lt in E1 | apply Z.ltb_ge in E1]; lia. }
+    assert (Hstop : (-1 <= stop)%Z).
+    { subst stop. destruct (sl_stop s) as [i0|]; [|lia].
+      unfold clip_idx. destruct (i0 <? 0)%Z eqn:E1; [apply Z.ltb_lt in E1 | apply Z.ltb_ge in E1]; lia. }
+    rewrite ?Es, ?Ep in Hi. rewrite ?Es, ?Ep.
+    destruct (stop <? start)%Z eqn:Ec; [apply Z.ltb_lt in Ec | cbn in Hi; lia].
+    assert (Hq : (0 <= (start - stop - 1) / - step)%Z) by (apply Z.div_pos; lia).
+    rewrite Z2Nat.id in Hi by lia.
+    assert (Hm : ((- step) * ((start - stop - 1) / - step) <= start - stop - 1)%Z) by (apply Z.mul_div_le; lia).
+    nia.
+  - assert (Hpos : (0 < step)%Z) by lia.
+    replace (0 <? step)%Z with true in Hi by (symmetry; apply Z.ltb_lt; lia).
+    assert (Hstart : (0 <= start)%Z).
+    { subst start. destruct (sl_start s) as [i0|]; [|lia].
+      unfold clip_idx. destruct (i0 <? 0)%Z eqn:E1; [apply Z.ltb_lt in E1 | apply Z.ltb_ge in E1]; lia. }
+    assert (Hstop : (stop <= n)%Z).
+    { subst stop. destruct (sl_stop s) as [i0|]; [|lia].
+      unfold clip_idx. destruct (i0 <? 0)%Z eqn:E1; [apply Z.ltb_lt in E1 | apply Z.ltb_ge in E1]; lia. }
+    rewrite ?Es, ?Ep in Hi. rewrite ?Es, ?Ep.
+    destruct (start <? stop)%Z eqn:Ec; [apply Z.ltb_lt in Ec | cbn in Hi; lia].
+    assert (Hq : (0 <= (stop - start - 1) / step)%Z) by (apply Z.div_pos; lia).
+    rewrite Z2Nat.id in Hi by lia.
+    assert (Hm : (step * ((stop - start - 1) / step) <= stop - start - 1)%Z) by (apply Z.mul_div_le; lia).
+    nia.
+Qed.
+
+Section DP2.
+Context {T : Type} `{Num T}.
+Variable dv : dvariants.
+
+(* ------------------------------------------------------------ ProductSpace.__getitem__ *)
+Lemma rall_Ok' {A} (l : list (res A)) l' : rall l = Ok l' -> Forall2 (fun r y => r = Ok y) l l'.
+Proof.
+  revert l'. induction l as [|x l IH]; cbn; intros l' E.
+  - inversion E. constructor.
+  - apply rbind_Ok in E as [y [Ey E]]. apply rmap_Ok in E as [l2 [El ->]]. constructor; auto.
+Qed.
+
+(* pspace[slice]: the components at the positions of the Python slice, in order, with the
+   field of the parent; the weighting is the parent's constant weighting (repaired code) or
+   the default one (current code) *)
+Theorem getitem_slice_spec (l : list (obj T)) w f s b :
+  ogetitem dv (OProd l w f) (PSlice s) = Ok b ->
+  exists ps ss, slice_positions (Z.of_nat (length l)) s = Ok ps /\
+    Forall2 (fun p x => nth_error l (Z.to_nat p) = Some x) ps ss /\
+    b = OProd ss (match sub_w dv w with Some w' => w' | None => default_ps_w end) f.
+Proof.
+  cbn [ogetitem]. intro E. apply rbind_Ok in E as [ss [Es E]].
+  unfold select_slice in Es. apply rbind_Ok in Es as [ps [Ep Es]].
+  exists ps, ss. split; [exact Ep|]. split.
+  - apply rall_Ok in Es. clear - Es. induction Es as [|p x ps ss Epx Es IH]; constructor; auto.
+    destruct (nth_error l (Z.to_nat p)); inversion Epx; reflexivity.
+  - unfold mk_prod in E. destruct ss as [|x ss].
+    + inversion E; reflexivity.
+    + destruct (forallb _ _); inversion E; reflexivity.
+Qed.
+
+(* a slice with a non-zero step never raises IndexError: every position is a valid index *)
+Theorem select_slice_no_index_error {A} (l : list A) s :
+  select_slice l s <> ErrIndex /\ select_slice l s <> ErrType.
+Proof.
+  unfold select_slice.
+  destruct (slice_positions (Z.of_nat (length l)) s) as [ps| | |] eqn:Ep; cbn [rbind]; try (split; discriminate).
+  2:{ unfold slice_positions, slice_indices in Ep. destruct (_ =? 0)%Z; cbn in Ep; discriminate. }
+  2:{ unfold slice_positions, slice_indices in Ep. destruct (_ =? 0)%Z; cbn in Ep; discriminate. }
+  apply slice_positions_in_range in Ep; [|lia].
+  assert (E : exists ss, rall (map (fun p => match nth_error l (Z.to_nat p) with Some a => Ok a | None => ErrIndex end) ps) = Ok ss).
+  { induction Ep as [|p ps Hp Hps IH]; cbn; [eauto|].
+    destruct (nth_error l (Z.to_nat p)) eqn:En.
+    - destruct IH as [ss ->]. cbn. eauto.
+    - apply nth_error_None in En. lia. }
+  destruct E as [ss ->]. split; discriminate.
+Qed.
+
+(* pspace[k] is the k-th component (Python index normalisation) *)
+Theorem getitem_int_spec (l : list (obj T)) w f k b :
+  ogetitem dv (OProd l w f) (PInt k) = Ok b ->
+  let n := Z.of_nat (length l) in
+  (- n <= k < n)%Z /\ nth_error l (Z.to_nat (if (k <? 0)%Z then k + n else k)) = Some b.
+Proof.
+  cbn [ogetitem]. unfold nth_res, norm_index. intro E. apply rbind_Ok in E as [j [Ej E]].
+  destruct ((0 <=? _) && _)%Z eqn:Eb; [|discriminate]. inversion Ej; subst j.
+  apply andb_true_iff in Eb as [E1 E2]. apply Z.leb_le in E1. apply Z.ltb_lt in E2.
+  destruct (nth_error l _) as [x|] eqn:En; inversion E; subst x. split; [|reflexivity].
+  destruct (k <? 0)%Z eqn:Ek; [apply Z.ltb_lt in Ek | apply Z.ltb_ge in Ek]; lia.
+Qed.
+
+End DP2.
+
+(* ------------------------------------------------------------ what the CURRENT derived-space code loses *)
+From Coq Require Import Reals.
+Section DRefuted.
+Local Open Scope R_scope.
+Definition rn2 : obj R := OTensor {| ts_shape := [2%Z]; ts_dtype := DFloat64; ts_w := WConst KNpy 2%R (EFin 1%R) |}.
+Definition ps2 : obj R := OProd [rn2; rn2; rn2] (WConst KPs 2%R (EFin 2%R)) FReal.
+
+Lemma two_ne_one : 2%R <> 1%R.
+Proof. intro E. apply eq_IZR in E. discriminate. Qed.
+
+(* rn(2, weighting=2, exponent=1).astype(int64): weighting 1.0, exponent 2.0 *)
+Lemma astype_int_drops_weighting :
+  exists b, oastype current_dvariants rn2 DInt64 = Ok b /\ map (@ts_w R) (leaves b) <> map (@ts_w R) (leaves rn2).
+Proof.
+  eexists. split; [reflexivity|]. cbn. intro E. inversion E as [[E1 E2]]. apply two_ne_one. symmetry. exact E1.
+Qed.
+
+(* ProductSpace(rn(2), 3, weighting=2).astype(float32): product weighting 1.0 *)
+Lemma pspace_astype_drops_weighting :
+  exists b, oastype current_dvariants ps2 DFloat32 = Ok b /\ pweights b <> pweights ps2.
+Proof.
+  eexists. split; [reflexivity|]. cbn. intro E. inversion E as [[E1]]. apply two_ne_one. symmetry. exact E1.
+Qed.
+
+(* ProductSpace(rn(2), 3, weighting=2)[0:2]: product weighting 1.0 *)
+Lemma pspace_getitem_drops_weighting :
+  exists b, ogetitem current_dvariants ps2 (PSlice {| sl_start := Some 0%Z; sl_stop := Some 2%Z; sl_step := None |}) = Ok b
+            /\ pweights b <> [WConst KPs 2%R (EFin 2%R)].
+Proof.
+  eexists. split; [reflexivity|]. cbn. intro E. inversion E as [[E1]]. apply two_ne_one. symmetry. exact E1.
+Qed.
+
+Lemma leafw_refuted :
+  exists (a : obj R) d b, is_numeric d = true /\ oastype current_dvariants a d = Ok b /\
+    map (@ts_w R) (leaves b) <> map (@ts_w R) (leaves a).
+Proof.
+  destruct astype_int_drops_weighting as [b [E1 E2]]. exists rn2, DInt64, b. split; [reflexivity | split; assumption].
+Qed.
+Lemma prodw_refuted :
+  exists (a : obj R) d b, oastype current_dvariants a d = Ok b /\ pweights b <> pweights a.
+Proof. destruct pspace_astype_drops_weighting as [b E]. exists ps2, DFloat32, b. exact E. Qed.
+Lemma getitemw_refuted :
+  exists (a : obj R) s b, ogetitem current_dvariants a (PSlice s) = Ok b /\ pweights b <> [WConst KPs 2%R (EFin 2%R)]
+                          /\ pweights a = [WConst KPs 2%R (EFin 2%R)].
+Proof.
+  destruct pspace_getitem_drops_weighting as [b [E1 E2]].
+  exists ps2, {| sl_start := Some 0%Z; sl_stop := Some 2%Z; sl_step := None |}, b. repeat split; assumption.
+Qed.
+End DRefuted.
